@@ -7,6 +7,7 @@ Property theorems about Core/Args.lean (`bindPlan` = the decisions of
 import RsassModel.Core.LemmasScope
 import RsassModel.Core.LemmasArgs
 import RsassModel.Core.Eval
+import RsassModel.Core.LemmasEval
 namespace C18
 open Core
 
@@ -381,6 +382,45 @@ theorem default_evaluated_in_callee_scope (fuel : Nat) (cfg : Cfg) (a : Nat) (x 
   cases evalExpr fuel cfg a e { st with heap := insertLocal st.heap a x v } with
   | error e' => rfl
   | ok res => obtain ⟨w, st'⟩ := res; rfl
+
+/-- **defaults read earlier parameters** (evaluator level, arbitrary default expression `e`
+of the fragment, any flags).  With the parameters `vs` already bound from arguments (distinct
+names) in the argscope `a`, the plan step `(y, .dflt e)` evaluates `e` *in `a`*, in the
+state in which all of `vs` are bound there, and then binds `$y` to the result; and in that
+state every variable reference `$x` to an earlier parameter — the only way an expression
+reads a variable — evaluates to exactly the value bound to it (it is neither shadowed nor
+"unspecified"), whatever the caller's or the global scope hold under that name. -/
+theorem default_reads_earlier_params (cfg : Cfg) (a : Nat) (vs : List (Name × V)) (y : Name) (e : Expr)
+    (r : List (Name × Binding)) (f : Nat) (st : St)
+    (wf : st.heap.WF) (ha : a < st.heap.size) (hnd : (vs.map (·.1)).Nodup) :
+    let st' : St := { st with heap := bindVals st.heap a vs }
+    runBinds (f + 1 + vs.length) cfg a (vs.map (fun b => (b.1, Binding.val b.2)) ++ (y, .dflt e) :: r) st =
+      (match evalExpr f cfg a e st' with
+       | .error err' => .error err'
+       | .ok (w, st'') => runBinds f cfg a r { st'' with heap := insertLocal st''.heap a y w })
+    ∧ ∀ b ∈ vs, ∀ (x : Name) (k : Nat), normName x = b.1 →
+        evalExpr (k + 1) cfg a (.var x) st' = .ok (b.2, st') := by
+  refine ⟨?_, ?_⟩
+  · rw [runBinds_vals_prefix, runBinds]
+    cases evalExpr f cfg a e { st with heap := bindVals st.heap a vs } with
+    | error e' => rfl
+    | ok res => obtain ⟨w, st''⟩ := res; rfl
+  · intro b hb x k hx
+    have hsz : a < (bindVals st.heap a vs).size := by rw [size_bindVals]; exact ha
+    have hwf := wf_bindVals a vs st.heap wf
+    have hd := getAssoc_bindVals_mem a vs st.heap ha hnd b hb
+    simp only [evalExpr, readVar, hx]
+    rw [ghostRead_of_declared hwf hsz hd, lookup_of_declared hwf hsz hd]
+    simp
+
+/-- satisfiable, and the value really is the parameter's, not the global's:
+`$a: 100; @mixin m($a, $b: $a + 1) { r{p1: $b} } @include m(4)` prints 5 -/
+example :
+    (runProgram specCfg 60 [.decl "a".toList (.num 100) false false,
+      .mixin "m".toList ⟨[("a".toList, none), ("b".toList, some (.add (.var "a".toList) (.num 1)))], none⟩
+        [.emit "p1".toList (.var "b".toList)],
+      .incl "m".toList [(.pos, .num 4)] false .none []]).toOption = some [("p1".toList, "5".toList)] := by
+  decide +kernel
 
 /-! ## the code as it is -/
 
